@@ -158,6 +158,8 @@ theorem body_m3__NewReporter_unchanged : Facts.body_m3__NewReporter = ["func(opt
 
 theorem body_m3__newResourcePool_unchanged : Facts.body_m3__newResourcePool = ["func(protoFac thrift.TProtocolFactory) *resourcePool", "metricSlicePool := tally.NewObjectPool(batchPoolSize)", "metricSlicePool.Init(func() interface{} { return make([]m3thrift.Metric, 0, batchPoolSize) })", "metricTagSlicePool := tally.NewObjectPool(DefaultMaxQueueSize)", "metricTagSlicePool.Init(func() interface{} { return make([]m3thrift.MetricTag, 0, batchPoolSize) })", "protoPool := tally.NewObjectPool(protoPoolSize)", "protoPool.Init(func() interface{} { return protoFac.GetProtocol(&customtransport.TCalcTransport{}) })", "return &resourcePool{ metricSlicePool: metricSlicePool, metricTagSlicePool: metricTagSlicePool, protoPool: protoPool, }"] := rfl
 
+theorem body_m3_reporter_calculateBucketSize_unchanged : Facts.body_m3_reporter_calculateBucketSize = ["func(b cachedHistogramBucket) int32", "m := b.metric.metric", "tags := make([]m3thrift.MetricTag, 0, len(m.Tags)+2)", "tags = append(tags, m.Tags...)", "m.Tags = append( tags, m3thrift.MetricTag{Name: r.bucketIDTagName, Value: b.bucketID}, m3thrift.MetricTag{Name: r.bucketTagName, Value: b.bucket}, )", "return r.calculateSize(m)"] := rfl
+
 theorem body_m3_reporter_calculateSize_unchanged : Facts.body_m3_reporter_calculateSize = ["func(m m3thrift.Metric) int32", "r.calcLock.Lock()", "m.Write(r.calcProto)", "size := r.calc.GetCount()", "r.calc.ResetCount()", "r.calcLock.Unlock()", "return size"] := rfl
 
 theorem body_m3_resourcePool_getProto_unchanged : Facts.body_m3_resourcePool_getProto = ["func() thrift.TProtocol", "o := r.protoPool.Get()", "return o.(thrift.TProtocol)"] := rfl
